@@ -66,6 +66,7 @@ def unit_text(builder):
     if builder not in _unit_cache:
         S.PROVENANCE.clear()
         text = builder()
+        S.lint_ternaries(text, getattr(builder, '__name__', 'unit'))   # front-end defect guard (DESIGN.md section 9)
         _unit_cache[builder] = (text, list(S.PROVENANCE))
     return _unit_cache[builder]
 
@@ -275,11 +276,17 @@ def obligation_key(qname, ob):
         return f"{qname}|{ob['desc']}"
     return None
 
+_replay_built = {}
+MAX_REPLAYS = 6     # native replays per check run; further failed obligations are reported without replay
+_replays_done = [0]
 def native_replay(q, ob, pid, outdir):
     """compile and run the native replay driver against the REAL code in /repo with the verifier's counterexample.
     returns (status, text): status in reproduced | not-reproduced | no-input | error"""
     if not q.replay or not ob.get('inputs'):
         return 'no-input', ''
+    if _replays_done[0] >= MAX_REPLAYS:
+        return 'no-input', f'replay skipped: {MAX_REPLAYS} counterexamples of this run were already replayed'
+    _replays_done[0] += 1
     rp = q.replay
     try:
         argv = rp['args'](ob['inputs'], q)
@@ -294,8 +301,17 @@ def native_replay(q, ob, pid, outdir):
             rc, so, se, _ = sh(['make', '-C', REPO, '-j8'] + rp['premake'], outdir, 1200)
         if rc != 0:
             return 'error', 'could not rebuild the libraries of /repo for the replay: ' + (se or so)[-600:]
-    exe = os.path.join(outdir, 'replay_' + q.name)
     src = os.path.join(VERIF, rp['driver'])
+    key = (rp['driver'], tuple(rp.get('defines', [])))
+    if key in _replay_built:          # one build of a driver per check run (the tree does not change during a run)
+        exe = _replay_built[key]
+        rc, so, se, _ = sh([exe] + [str(a) for a in argv], outdir, 120, limit=False)
+        text = f"$ {os.path.basename(exe)} {' '.join(str(a) for a in argv)}\n{so}{se}"[-3000:]
+        if 'failed to allocate' in se or 'ReserveShadowMemoryRange' in se: return 'error', text
+        if rc == 0: return 'not-reproduced', text
+        if rc == 1 or rc < 0 or rc >= 128 or 'runtime error' in se or 'ERROR: AddressSanitizer' in se: return 'reproduced', text
+        return 'error', text
+    exe = os.path.join(outdir, 'replay_' + os.path.basename(rp['driver']).replace('.cpp', ''))
     cmd = ['g++', '-std=c++17', '-O1', '-g', '-fsanitize=address,undefined', '-fno-sanitize-recover=undefined',
            '-I', REPO, '-I', os.path.join(REPO, 'secp256k1/include'), '-I', os.path.join(VERIF, 'contracts'), '-I', os.path.join(VERIF, 'replay'),
            '-DHAVE_CONFIG_H', '-I', os.path.join(REPO, 'config')] + ['-D' + d for d in rp.get('defines', [])] + [src] + \
@@ -303,6 +319,7 @@ def native_replay(q, ob, pid, outdir):
     rc, so, se, _ = sh(cmd, outdir, 600)
     if rc != 0:
         return 'error', 'replay driver failed to build: ' + (se or so)[-800:]
+    _replay_built[key] = exe
     rc, so, se, _ = sh([exe] + [str(a) for a in argv], outdir, 120, limit=False)   # (AddressSanitizer needs an unlimited address space)
     text = f"$ {os.path.basename(exe)} {' '.join(str(a) for a in argv)}\n{so}{se}"[-3000:]
     if rc == 0: return 'not-reproduced', text
